@@ -479,6 +479,13 @@ func (n *Net) invoke(owner, target uint64, method, arg string, fn func(t *rchord
 	return finish(r.res, nil)
 }
 
+// RuleFired reports how often a fault rule has fired so far.
+func (n *Net) RuleFired(r *FaultRule) int {
+	n.mu.Lock()
+	defer n.mu.Unlock()
+	return r.Fired
+}
+
 // Crash crash-stops a member: its tasks are stopped and it becomes unreachable.
 func (n *Net) Crash(m *Member) {
 	m.crashed.Store(true)
